@@ -191,3 +191,71 @@ def loop_parts(loop):
     if loop["k"] == "DoStmt":
         return None, kids(loop)[1], None, kids(loop)[0]
     return None
+
+
+# ---------------------------------------------------------------- idioms that have several spellings
+def fill_all(n):
+    """(container expr, value expr) if n sets every element of a container to one value:
+    std::fill(c.begin(), c.end(), v) | std::fill_n(c.begin(), c.size(), v) | c.assign(n, v) |
+    for (T& x : c) x = v; | for (i = 0; i < c.size(); ++i) c[i] = v;"""
+    if n is None:
+        return None
+    if "callee" in n and n["callee"]["name"] in ("fill", "fill_n") and len(kids(n)) == 3:
+        a = strip_conv(kids(n)[0])
+        b = call_named(a, ("begin",))
+        if b is not None and "callee" in a and kids(a):
+            return kids(a)[0], kids(n)[2]
+    if "callee" in n and n.get("member_call") and n["callee"]["name"] == "assign" and len(kids(n)) == 3:
+        return kids(n)[0], kids(n)[2]
+    if n["k"] == "CXXForRangeStmt" and len(kids(n)) >= 3:
+        rng, var, body = kids(n)[0], kids(n)[1], kids(n)[2]
+        stmts = [s for s in (kids(body) if body is not None and body["k"] == "CompoundStmt" else [body]) if s is not None]
+        if var is not None and var["k"] == "VarDecl" and len(stmts) == 1:
+            b = binop(stmts[0], ("=",))
+            if b and ref_of(b[1]) == var.get("did") and (var.get("isref") or (var.get("ty") or "").rstrip().endswith("&")):
+                return rng, b[2]
+    if n["k"] == "ForStmt":
+        init, cond, inc, body = loop_parts(n)
+        stmts = [s for s in (kids(body) if body is not None and body["k"] == "CompoundStmt" else [body]) if s is not None]
+        var = [y for y in walk(init) if y["k"] == "VarDecl"] if init is not None else []
+        c = binop(cond, ("<", "!=")) if cond is not None else None
+        if len(var) == 1 and kids(var[0]) and const_int(kids(var[0])[0]) == 0 and c and ref_of(c[1]) == var[0]["did"] and len(stmts) == 1:
+            sz = call_named(strip_conv(c[2]), ("size",))
+            b = binop(stmts[0], ("=",))
+            ip = index_parts(b[1]) if b else None
+            if sz is not None and "callee" in strip_conv(c[2]) and ip and ref_of(ip[1]) == var[0]["did"] and same_expr(ip[0], kids(strip_conv(c[2]))[0]):
+                return ip[0], b[2]
+    return None
+
+
+def extreme_update(n, which):
+    """(target, other) if n lowers (which='min') / raises (which='max') target to other:
+    t = std::min(t, o) | if (o < t) t = o; | if (t > o) t = o; | t = o < t ? o : t  (and the mirror images for max)"""
+    if n is None:
+        return None
+    b = binop(n, ("=",))
+    if b:
+        m = call_named(strip_conv(b[2]), (which,))
+        if m is not None and "callee" in strip_conv(b[2]):
+            args = [a for a in kids(m) if a is not None][:2]
+            if len(args) == 2:
+                if same_expr(args[0], b[1]):
+                    return b[1], args[1]
+                if same_expr(args[1], b[1]):
+                    return b[1], args[0]
+        return None
+    if n["k"] == "IfStmt" and len(kids(n)) >= 2 and (len(kids(n)) < 3 or kids(n)[2] is None):
+        t = kids(n)[1]
+        stmts = [s for s in (kids(t) if t is not None and t["k"] == "CompoundStmt" else [t]) if s is not None]
+        c = binop(kids(n)[0], ("<", ">", "<=", ">="))
+        a = binop(stmts[0], ("=",)) if len(stmts) == 1 else None
+        if c and a:
+            op, l, r = c
+            # normalise to  other OP target
+            if same_expr(l, a[1]) and same_expr(r, a[2]):
+                op = {"<": ">", ">": "<", "<=": ">=", ">=": "<="}[op]
+            elif not (same_expr(r, a[1]) and same_expr(l, a[2])):
+                return None
+            if (which == "min" and op in ("<", "<=")) or (which == "max" and op in (">", ">=")):
+                return a[1], a[2]
+    return None
